@@ -67,10 +67,21 @@ type batch struct {
 	deletes map[string]uint32
 }
 
+// reader is what a transaction reads the committed state through: the
+// database itself for a write transaction (it holds the writer lock, nothing
+// can change underneath it), a snapshot for a read transaction, so that all
+// reads of one read transaction see the state of one commit boundary.
+type reader interface {
+	Get(key []byte, ro *opt.ReadOptions) ([]byte, error)
+	NewIterator(slice *util.Range, ro *opt.ReadOptions) iterator.Iterator
+}
+
 type transaction struct {
 	readOnly bool
 	b        *batch
 	l        *LevelDB
+	rd       reader
+	snap     *leveldb.Snapshot
 
 	cache map[db.BucketMeta]*levelBucket
 }
@@ -157,15 +168,22 @@ func (l *LevelDB) BeginTx() (db.DBTransaction, error) {
 		readOnly: false,
 		b:        newBatch(),
 		l:        l,
+		rd:       l.ldb,
 		cache:    make(map[db.BucketMeta]*levelBucket),
 	}, nil
 }
 
 // BeginReadTx ...
 func (l *LevelDB) BeginReadTx() (db.ReadTransaction, error) {
+	snap, err := l.ldb.GetSnapshot()
+	if err != nil {
+		return nil, err
+	}
 	return &transaction{
 		readOnly: true,
 		l:        l,
+		rd:       snap,
+		snap:     snap,
 		cache:    make(map[db.BucketMeta]*levelBucket),
 	}, nil
 }
@@ -175,7 +193,7 @@ func (tx *transaction) TopLevelBucket(name string) db.Bucket {
 	bucketPath := joinBucketPath(topLevelBucketDepth, name)
 	key := []byte(joinBucketPath(bucketNameBucket, bucketPath))
 
-	_, err := tx.l.ldb.Get(key, nil)
+	_, err := tx.rd.Get(key, nil)
 	if !tx.readOnly && err == leveldb.ErrNotFound {
 		if v, _ := tx.b.Get(key); v != nil {
 			err = nil
@@ -200,7 +218,7 @@ func (tx *transaction) BucketNames() (names []string, err error) {
 
 	prefix := []byte(joinBucketPath(bucketNameBucket, topLevelBucketDepth, ""))
 
-	iter := tx.l.ldb.NewIterator(util.BytesPrefix(prefix), nil)
+	iter := tx.rd.NewIterator(util.BytesPrefix(prefix), nil)
 	defer iter.Release()
 
 	names = make([]string, 0)
@@ -260,7 +278,7 @@ func (tx *transaction) FetchBucket(meta db.BucketMeta) db.Bucket {
 		path := joinBucketPath(meta.Paths()...)
 		key := []byte(joinBucketPath(bucketNameBucket, path))
 
-		_, err := tx.l.ldb.Get(key, nil)
+		_, err := tx.rd.Get(key, nil)
 		if !tx.readOnly && err == leveldb.ErrNotFound {
 			if v, _ := tx.b.Get(key); v != nil {
 				err = nil
@@ -296,7 +314,7 @@ func (tx *transaction) CreateTopLevelBucket(name string) (db.Bucket, error) {
 	bucketPath := joinBucketPath(topLevelBucketDepth, name)
 	key := []byte(joinBucketPath(bucketNameBucket, bucketPath))
 
-	_, err := tx.l.ldb.Get(key, nil)
+	_, err := tx.rd.Get(key, nil)
 	if err == nil {
 		_, deleted := tx.b.Get(key)
 		if !deleted {
@@ -335,6 +353,8 @@ func (tx *transaction) DeleteTopLevelBucket(name string) error {
 func (tx *transaction) Rollback() error {
 	if !tx.readOnly {
 		tx.l.muTr.Unlock()
+	} else if tx.snap != nil {
+		tx.snap.Release()
 	}
 	return nil
 }
@@ -342,6 +362,9 @@ func (tx *transaction) Rollback() error {
 // Commit ...
 func (tx *transaction) Commit() error {
 	if tx.readOnly {
+		if tx.snap != nil {
+			tx.snap.Release()
+		}
 		return nil
 	}
 	err := tx.l.ldb.Write(tx.b.b, nil)
@@ -370,7 +393,7 @@ func (b *levelBucket) NewBucket(name string) (db.Bucket, error) {
 	}
 
 	key := []byte(joinBucketPath(bucketNameBucket, sub.path))
-	_, err = b.tx.l.ldb.Get(key, nil) // value == name
+	_, err = b.tx.rd.Get(key, nil) // value == name
 	if err == nil {
 		_, deleted := b.tx.b.Get(key)
 		if !deleted {
@@ -403,7 +426,7 @@ func (b *levelBucket) Bucket(name string) db.Bucket {
 
 	key := []byte(joinBucketPath(bucketNameBucket, sub.path))
 
-	_, err = b.tx.l.ldb.Get(key, nil)
+	_, err = b.tx.rd.Get(key, nil)
 	if !b.tx.readOnly && err == leveldb.ErrNotFound {
 		if v, _ := b.tx.b.Get(key); v != nil {
 			err = nil
@@ -457,7 +480,7 @@ func (b *levelBucket) BucketNames() (names []string, err error) {
 	ss = append(ss, "")
 	prefix := []byte(joinBucketPath(bucketNameBucket, joinBucketPath(ss...)))
 
-	iter := b.tx.l.ldb.NewIterator(util.BytesPrefix(prefix), nil)
+	iter := b.tx.rd.NewIterator(util.BytesPrefix(prefix), nil)
 	defer iter.Release()
 
 	names = make([]string, 0)
@@ -540,7 +563,7 @@ func deleteBucket(b *levelBucket) error {
 
 	// delete k/v in bucket
 	prefix := []byte(joinBucketPath(b.path, ""))
-	iter := b.tx.l.ldb.NewIterator(util.BytesPrefix(prefix), nil)
+	iter := b.tx.rd.NewIterator(util.BytesPrefix(prefix), nil)
 	for iter.Next() {
 		_, deleted := b.tx.b.Get(iter.Key())
 		if deleted {
@@ -600,7 +623,7 @@ func (b *levelBucket) Get(key []byte) ([]byte, error) {
 		return nil, nil
 	}
 
-	value, err := b.tx.l.ldb.Get(key, nil)
+	value, err := b.tx.rd.Get(key, nil)
 	if err != nil {
 		if err == leveldb.ErrNotFound {
 			if b.tx.readOnly {
@@ -644,7 +667,7 @@ func (b *levelBucket) Clear() error {
 	}
 	prefix := []byte(joinBucketPath(b.path, ""))
 
-	iter := b.tx.l.ldb.NewIterator(util.BytesPrefix(prefix), nil)
+	iter := b.tx.rd.NewIterator(util.BytesPrefix(prefix), nil)
 	defer iter.Release()
 
 	for iter.Next() {
@@ -676,7 +699,7 @@ func (b *levelBucket) GetByPrefix(prefix []byte) ([]*db.Entry, error) {
 	entries := make([]*db.Entry, 0)
 	set := make(map[string]struct{})
 
-	iter := b.tx.l.ldb.NewIterator(util.BytesPrefix(innerPrefix), nil)
+	iter := b.tx.rd.NewIterator(util.BytesPrefix(innerPrefix), nil)
 	defer iter.Release()
 
 	for iter.Next() {
@@ -885,7 +908,7 @@ func (b *levelBucket) NewIterator(slice *db.Range) db.Iterator {
 		b:       b,
 		slice:   slice,
 		iterEnd: false,
-		iter: b.tx.l.ldb.NewIterator(&util.Range{
+		iter: b.tx.rd.NewIterator(&util.Range{
 			Start: slice.Start,
 			Limit: slice.Limit,
 		}, nil),
